@@ -15,6 +15,17 @@ CHECKS = {
              'numerical fact measured by the oracle, not proved; TRL / SOLR are posed for the 8- and 10-term types only (the 12/14-term models are not determined by them); the '
              'repeatability model is statistical: limits of a few sigma.',
         ref='DESIGN.md §6 C02'),
+    'C03': dict(
+        technique='Lean 4 proof (memory-safety theorems of the object models: vnadata histories incl. failed allocations, handle-table bounds, loader bounds and progress) + sanitizer and allocation-accounting oracle on interleaved random histories over all object kinds',
+        text='Theorems: no operation of any vnadata history reaches outside an allocation (also after a failed allocation); a handle the parameter table accepts indexes inside the slot '
+             'vector, the slot handed out was free, negative and too large handles / calibration indices are refused and a delete never changes the table size; Touchstone / NPD loads '
+             'write inside the sized object and index inside the checked line; the NPD scanner consumes input. On the compiled C (ASan + UBSan + LSan + allocation accounting): '
+             'interleaved histories of about 300 calls mixing a random vnadata history, a property-tree history, two vnacal lives (parameters, standards of every entry point, invalid '
+             'calls, premature and repeated solves / add_calibration, apply, properties, save, deletes in awkward order) and a file thread (valid and mutated Touchstone / NPD, save, '
+             'convert): no report, every object freed, nothing remains.',
+        note='Lean kernel + standard axioms; the models are those of C06/C09/C12/C15/C16 with their correspondence ties; for vnacal_new / solver / save internals there is no model: they are '
+             'covered by the sanitizer oracle only (also in C01, C02, C12, C17, C18, C20); UBSan nonnull-attribute (zero-length memcpy/memset on NULL) is not counted; libyaml/libc trusted.',
+        ref='DESIGN.md §6 C03'),
     'C04': dict(
         technique='Lean 4 proof over a model regenerated from the C source (clang AST translator) + differential run of the generated model against the compiled C + defining-relation oracle',
         text='All 81 two-port vnaconv functions are re-translated from /repo/src on every run and, for each, Lean re-checks: '
